@@ -42,11 +42,27 @@ func checkC19(e *Engine, r *Report) {
 		// VerifySignature = ECDSA(msg) || EIP712(msg): every true origin is a result of one of the two helpers on (msg, sig)
 		okV := true
 		n := 0
+		// `if helper(msg, sig) { return true }`: a constant true is acceptable in a block that only the true edge of such a test reaches
+		gHelper := boolCallGuards(vs, true, func(c *ssa.Call) bool {
+			return (c.Call.StaticCallee() == ec || c.Call.StaticCallee() == ep) &&
+				resolveLocal(c.Call.Args[1]) == ssa.Value(vs.Params[1]) && resolveLocal(c.Call.Args[2]) == ssa.Value(vs.Params[2])
+		})
+		var at *ssa.BasicBlock
 		var visit func(v ssa.Value, depth int)
 		visit = func(v ssa.Value, depth int) {
 			if b, isK := constBool(v); isK {
 				if b {
-					okV = false
+					under := false
+					for _, g := range gHelper {
+						if at != nil && blockDominatedByEdge(vs, at, g) {
+							under = true
+						}
+					}
+					if under {
+						n++
+					} else {
+						okV = false
+					}
 				}
 				return
 			}
@@ -80,6 +96,7 @@ func checkC19(e *Engine, r *Report) {
 			}
 		}
 		for _, ret := range returnsOf(vs) {
+			at = ret.Block()
 			visit(ret.Results[0], 0)
 		}
 		r.Check(okV && n >= 1, "PubKey.VerifySignature › accepts only via the ECDSA / EIP-712 checks of (msg, sig)", e.Pos(vs.Pos()), "verifySignatureECDSA(msg, sig) || verifySignatureAsEIP712(msg, sig)", "VerifySignature can return true on a path that did not verify this (message, signature) pair")
@@ -155,15 +172,36 @@ func checkC19(e *Engine, r *Report) {
 		fee := sliceFrom(a[4])
 		r.Check(hasFieldLoad(fee, "Fee", "Amount") && hasFieldLoad(fee, "Fee", "GasLimit"), "sign doc field › fee (amount, gas limit)", e.Pos(sb[0].Pos()), "StdFee{Amount: authInfo.Fee.Amount, Gas: authInfo.Fee.GasLimit}", "fee amount or gas limit of the sign doc is not part of the hashed bytes")
 		msgsV := resolveLocal(a[5])
+		// the unpacking loop may live in a single-site private helper returning (msgs, error) whose error is propagated
+		mfn := fn
+		if ex, isEx := msgsV.(*ssa.Extract); isEx {
+			if hc, _ := callOf(ex.Tuple); hc != nil {
+				reg := e.privateRegion(fn)
+				if h := hc.Call.StaticCallee(); h != nil && reg.in[h] && h != fn && errorPropagated(fn, hc, nil) {
+					var mk ssa.Value
+					same := true
+					for _, ret := range successReturns(h) {
+						v := resolveLocal(ret.Results[ex.Index])
+						if mk != nil && mk != v {
+							same = false
+						}
+						mk = v
+					}
+					if same && mk != nil {
+						mfn, msgsV = h, mk
+					}
+				}
+			}
+		}
 		_, isMake := msgsV.(*ssa.MakeSlice)
-		unpack := callsIn(fn, false, func(c ssa.CallInstruction) bool {
+		unpack := callsIn(mfn, false, func(c ssa.CallInstruction) bool {
 			return isMethodNamed(c, "UnpackAny") && hasFieldLoad(sliceFrom(c.Common().Args[0]), "TxBody", "Messages")
 		})
 		storedInLoop := false
 		if isMake && msgsV.Referrers() != nil {
 			for _, rr := range *msgsV.Referrers() {
 				if ia, ok := rr.(*ssa.IndexAddr); ok && len(storesTo(ia)) > 0 {
-					for _, l := range loopsOf(fn) {
+					for _, l := range loopsOf(mfn) {
 						if l.Body[ia.Block()] {
 							storedInLoop = true
 						}
@@ -174,7 +212,7 @@ func checkC19(e *Engine, r *Report) {
 		r.Check(isMake && len(unpack) == 1 && storedInLoop, "sign doc field › messages", e.Pos(sb[0].Pos()), "every body message unpacked into the msgs argument", "the messages of the transaction body are not (all) part of the hashed bytes")
 		// all body messages are unpacked: msgs has len(body.Messages) and the loop fills index i for the range index
 		okAll := false
-		allInstrs(fn, false, func(_ *ssa.Function, _ *ssa.BasicBlock, i ssa.Instruction) {
+		allInstrs(mfn, false, func(_ *ssa.Function, _ *ssa.BasicBlock, i ssa.Instruction) {
 			if mk, ok := i.(*ssa.MakeSlice); ok {
 				if c, _ := callOf(mk.Len); c != nil {
 					if b, isB := c.Call.Value.(*ssa.Builtin); isB && b.Name() == "len" && hasFieldLoad(sliceFrom(c.Call.Args[0]), "TxBody", "Messages") {
